@@ -99,6 +99,22 @@ CLAIMED = {
              "observed values compared and required to end in the finished state.",
         technique="Coq proof: 13-field invariant over an executable transition function (all interleavings) + trace validation of real executions by the same function",
         design_ref="DESIGN.md §3 C40, Appendix C.2"),
+    "C03": dict(
+        text="S1. Specification = least set containing the non-optional files and closed under non-weak references to the first definition of a name (a definition independent of where an archive "
+             "sits relative to its referrers). Theorem loaded_is_lfp: in the parallel worklist model (any pending file may be processed next, a file is queued at most once) every state with "
+             "nothing pending has loaded set = the specified set — for all link lines and all schedules. The correspondence run compares wild's loaded set with a closure that is verified, per case, "
+             "by a certificate checker proved sound and complete for the specification.",
+        note="Trusted: Coq kernel + vm_compute, no axioms; hand model of is_optional / name table / resolve_symbol; reading of 'defines' when several files define a name follows the mechanism "
+             "(first definition in command-line order); tie = wild binary on generated link lines (archives, thin archives, --whole-archive, --start-lib, shared libs, weak refs).",
+        technique="Coq proof (worklist invariant over all schedules; certificate checker soundness) + model/implementation correspondence on generated link lines",
+        design_ref="DESIGN.md §3 C03"),
+    "C37": dict(
+        text="S1 on top of C03: DT_NEEDED = the shared libraries in the verified loaded set, in command-line order. Theorems: listed iff loaded shared library; every --no-as-needed library listed; "
+             "an --as-needed library listed only if some loaded file non-weakly references a name whose first definition it is; strictly increasing command-line positions (each at most once).",
+        note="Trusted: as C03; DT_NEEDED read from wild's output and compared as an ordered list; soname de-duplication not exercised; references from a shared library to another shared library do "
+             "not load it (wild's documented rule), which the property's 'reference from the output' wording agrees with.",
+        technique="Coq proof (filter characterisation over C03's least fixed point) + model/implementation correspondence on generated link lines",
+        design_ref="DESIGN.md §3 C37"),
 }
 
 PENDING_REASON = "not claimed yet: model/theorems for this property are not built in this revision (see DESIGN.md §8 construction order)"
